@@ -252,7 +252,11 @@ class Engine:
             sel = select(s, env=env)
 
             def listener(args, rec=rec):
-                rec.got.append(canon_event(args))
+                if op.get("ptype") == "total":
+                    # all=True hands out {capture: [values]}
+                    rec.got.append({k: {"values": [canon(x) for x in v]} for k, v in args.items()})
+                else:
+                    rec.got.append(canon_event(args))
                 rec.got_op.append(self.opi)
 
             if op.get("ptype") == "total":
